@@ -42,7 +42,7 @@ EXPLANATION = (
     "bits is shared with C06 (emit_io_use). NOT decided: simulated bit values."
 )
 ASSUMPTIONS = ["CPython ast parses /repo's source as the interpreter would"]
-MIN_INSTANCES = {"R-18d": 1, "R-18a": 12, "R-18b": 8, "R-18c": 6}
+MIN_INSTANCES = {"R-18e": 5, "R-18d": 1, "R-18a": 12, "R-18b": 8, "R-18c": 6}
 
 
 def r18a(model, ctx):
@@ -57,6 +57,13 @@ def r18a(model, ctx):
         def ret(name):
             r = [s for s in ms[name].body if isinstance(s, ast.Return) and isinstance(s.value, ast.Call) and dotted(s.value.func) == ctor]
             need(len(r) == 1, f"{cls}.{name}: constructor return not found")
+            # ... and it is the only result: no other path hands back a port (e.g. `self` for an empty operand, which skips
+            # the combination of directions and inversion masks)
+            others = [s for s in ast.walk(ms[name]) if isinstance(s, ast.Return) and s is not r[0] and
+                      not (isinstance(s.value, ast.Name) and s.value.id == "NotImplemented")]
+            ctx.check(not others, R, f"{cls}.{name}:single-result", "the constructed port is the only result",
+                      f"{cls}.{name} has another result path `{[unparse(o) for o in others]}` that bypasses the composition of wires, "
+                      f"inversion and direction", f"{IO}:{ms[name].lineno}")
             return r[0].value
         # __getitem__
         call = ret("__getitem__")
@@ -293,6 +300,35 @@ def r18d(model, ctx):
                        "(range(start, stop, step) of key.indices(n) — re-slicing range(n) with the normalised indices misreads stop=-1).")
 
 
+
+def r18e(model, ctx):
+    """a transformer (EnableInserter, ResetInserter, DomainRenamer, DomainLowerer) that rebuilds a fragment keeps it whole:
+    every reconstruction in FragmentTransformer.on_fragment passes every constructor parameter of the rebuilt class — an
+    I/O buffer whose `oe` is not forwarded comes back permanently enabled"""
+    R = "R-18e"
+    XFRM = "amaranth/hdl/_xfrm.py"
+    fn = model.func(f"{XFRM}::FragmentTransformer.on_fragment")
+    homes = {"IOBufferInstance": "amaranth/hdl/_ir.py::IOBufferInstance", "MemoryInstance": "amaranth/hdl/_mem.py::MemoryInstance",
+             "MemoryInstance._ReadPort": "amaranth/hdl/_mem.py::MemoryInstance._ReadPort",
+             "MemoryInstance._WritePort": "amaranth/hdl/_mem.py::MemoryInstance._WritePort",
+             "RequirePosedge": "amaranth/hdl/_ir.py::RequirePosedge"}
+    n = 0
+    for call in ast.walk(fn):
+        if not isinstance(call, ast.Call) or dotted(call.func) not in homes:
+            continue
+        name = dotted(call.func)
+        init = model.func(homes[name] + ".__init__")
+        params = [a.arg for a in init.args.args[1:]] + [a.arg for a in init.args.kwonlyargs]
+        params = [p_ for p_ in params if p_ != "src_loc_at"]
+        given = set(params[:len(call.args)]) | {k.arg for k in call.keywords if k.arg}
+        missing = [p_ for p_ in params if p_ not in given]
+        n += 1
+        ctx.check(not missing, R, f"FragmentTransformer.on_fragment:{name}@{call.lineno - fn.lineno}", f"all of {params} forwarded",
+                  f"the rebuilt {name} is not given {missing}: the transformed design silently loses that part of the original "
+                  f"(for an I/O buffer without `oe` the output driver is always enabled)", f"{XFRM}:{call.lineno}")
+    need(n >= 5, f"only {n} reconstructions found in FragmentTransformer.on_fragment")
+
+
 def _only(rule_fn, keep):
     def wrapped(model, ctx):
         n0, v0 = len(ctx.obligations), len(ctx.violations)
@@ -302,5 +338,5 @@ def _only(rule_fn, keep):
     return wrapped
 
 
-RULES = [("R-18d", r18d), ("R-18a", r18a), ("R-18b", r18b), ("R-18c", r18c),
+RULES = [("R-18e", r18e), ("R-18d", r18d), ("R-18a", r18a), ("R-18b", r18b), ("R-18c", r18c),
          ("R-06c", _only(c06.r06c, lambda c: "emit_io" in c or "iobuffer" in c or "emit_instance" in c))]
